@@ -182,7 +182,9 @@ func buildKinds() {
 	add(&kind{name: "u8", typ: reflect.TypeOf(uint8(0)), vals: uintVals(reflect.TypeOf(uint8(0)), 0, 1, 127, 128, 255)})
 	add(&kind{name: "u16", typ: reflect.TypeOf(uint16(0)), vals: uintVals(reflect.TypeOf(uint16(0)), 0, 1, 127, 128, 255, 256, 65535)})
 	add(&kind{name: "u32", typ: reflect.TypeOf(uint32(0)), vals: uintVals(reflect.TypeOf(uint32(0)), 0, 1, 127, 128, 255, 256, 65536, 1<<32-1)})
-	add(&kind{name: "u64", typ: reflect.TypeOf(uint64(0)), vals: uintVals(reflect.TypeOf(uint64(0)), 0, 1, 127, 128, 255, 256, 1<<32, 1<<64-1)})
+	add(&kind{name: "u64", typ: reflect.TypeOf(uint64(0)), vals: uintVals(reflect.TypeOf(uint64(0)), 0, 1, 127, 128, 255, 256, 1<<32, 1<<64-1,
+		// one value of every byte width whose bytes all differ (a byte taken from the wrong position shows)
+		0x0102, 0x010203, 0x01020304, 0x0102030405, 0x010203040506, 0x01020304050607, 0x0102030405060708)})
 	add(&kind{name: "uint", typ: reflect.TypeOf(uint(0)), vals: uintVals(reflect.TypeOf(uint(0)), 0, 1, 128, 1<<64-1)})
 
 	bigs := []string{"0", "1", "127", "128", "0x10000000000000000", "0x10000000000000000000000000000000000000000000000000000000000000000"}
